@@ -68,7 +68,12 @@ func (w *World) Len() int { w.mu.Lock(); defer w.mu.Unlock(); return len(w.g) }
 func (w *World) Log() []Entry { w.mu.Lock(); defer w.mu.Unlock(); return append([]Entry(nil), w.g...) }
 
 // Exists reports whether id currently exists.
-func (w *World) Exists(id string) bool { w.mu.Lock(); defer w.mu.Unlock(); _, ok := w.cur[id]; return ok }
+func (w *World) Exists(id string) bool {
+	w.mu.Lock()
+	defer w.mu.Unlock()
+	_, ok := w.cur[id]
+	return ok
+}
 
 // OpKind is a write kind.
 type OpKind int
@@ -233,20 +238,20 @@ type RecEv struct {
 	NS       string `json:"ns,omitempty"`
 	RType    string `json:"rtype,omitempty"`
 	// StartedAtRecv is World.Started when the consumer took this event (upper bound of what was published).
-	StartedAtRecv int64 `json:"started_at_recv"`
-	Idx           int   `json:"idx"` // log index (-1 if not a log event)
+	StartedAtRecv int64          `json:"started_at_recv"`
+	Idx           int            `json:"idx"` // log index (-1 if not a log event)
 	RawBookmark   state.Bookmark `json:"-"`
 }
 
 // Rec is everything a consumer of one watch recorded.
 type Rec struct {
-	Name     string `json:"name"`
-	Kind     string `json:"kind"` // single | kind | agg
-	ID       string `json:"id,omitempty"`
-	Lo       int    `json:"lo"` // len(G) before the watch call
-	Hi       int    `json:"hi"` // len(G) after it returned
-	Boot     bool   `json:"boot,omitempty"`
-	BootBM   bool   `json:"boot_bookmark,omitempty"`
+	Name   string `json:"name"`
+	Kind   string `json:"kind"` // single | kind | agg
+	ID     string `json:"id,omitempty"`
+	Lo     int    `json:"lo"` // len(G) before the watch call
+	Hi     int    `json:"hi"` // len(G) after it returned
+	Boot   bool   `json:"boot,omitempty"`
+	BootBM bool   `json:"boot_bookmark,omitempty"`
 	// FromIdx >= -1 when started from the bookmark of entry FromIdx (expected continuation G[FromIdx+1:]); -2 otherwise.
 	FromIdx int `json:"from_idx"`
 	// Tail > 0 when started with a tail request.
@@ -255,6 +260,8 @@ type Rec struct {
 	Cancelled bool    `json:"cancelled,omitempty"`
 	// Stalled: the consumer stopped reading on purpose (so completeness is not required).
 	Stalled bool `json:"stalled,omitempty"`
+	// OnlyID: a kind watch restricted (by an ID query) to this one id; such records are used without bootstrap contents
+	OnlyID string `json:"only_id,omitempty"`
 	// AnyStart: the start index is unconstrained (forged bookmark accepted): only contiguity is judged.
 	AnyStart bool `json:"any_start,omitempty"`
 
@@ -349,7 +356,9 @@ func CheckRec(g []Entry, r *Rec, initialCap int, complete bool) ([]Problem, Stat
 		probs = append(probs, Problem{Sig: sig, Detail: fmt.Sprintf("%s: ", r.Name) + fmt.Sprintf(format, a...)})
 	}
 
-	match := func(e Entry) bool { return r.Kind != "single" || e.ID == r.ID }
+	match := func(e Entry) bool {
+		return (r.Kind != "single" || e.ID == r.ID) && (r.OnlyID == "" || e.ID == r.OnlyID)
+	}
 	complete = complete && !r.Cancelled && !r.Stalled
 
 	evs := r.Events
@@ -533,7 +542,7 @@ func checkLive(g []Entry, r *Rec, live []RecEv, s int, match func(Entry) bool, i
 		probs = append(probs, Problem{Sig: sig, Detail: fmt.Sprintf(format, a...)})
 	}
 
-	cursor := s     // next log index to look at
+	cursor := s      // next log index to look at
 	lastIdx := s - 1 // index of the last entry the consumer has (for the lag rule)
 	batchSizes := map[int]int{}
 
@@ -590,7 +599,6 @@ func checkLive(g []Entry, r *Rec, live []RecEv, s int, match func(Entry) bool, i
 
 				return probs, st
 			}
-
 
 			if ev.Type == "Updated" {
 				if !ev.HasOld {
